@@ -569,8 +569,16 @@ func (e *Engine) applyContract(st *State, fn *ssa.Function, c *Contract, args []
 		g := e.evalSpecBool(env, r.Expr)
 		e.oblige(st, "pre", fmt.Sprintf("call[%s].%s", callee, clauseName(r, i)), g, pos)
 	}
+	for _, h := range c.Holds {
+		key := e.holdKey(env, h)
+		held := st.locks[key]
+		if held == lockNone || (h.Mode == lockW && held != lockW) {
+			e.oblige(st, "lock", fmt.Sprintf("call[%s].caller_holds_%s", callee, h.Field), TFalse, pos)
+		}
+	}
 	// case preconditions: at least one case must apply when there are only cases
 	// effects
+	e.interfereAcquired(st, env, c)
 	e.havocModifies(st, env, c)
 	if c.Emits {
 		st.havocTrace()
@@ -702,6 +710,15 @@ func (e *Engine) modTargets(env *SpecEnv, x *SExpr) []modTarget {
 			var out []modTarget
 			for _, ks := range e.leafKeys(p.rootName(e)+suffix, ft, len(ix)) {
 				out = append(out, modTarget{ks: ks, ref: e.rootRef(env.st, p), whole: len(ix) > 0 && false})
+			}
+			// a map-typed field: the contents of the map it refers to may change too
+			if mt, ok := ft.Underlying().(*types.Map); ok && len(ix) == 0 {
+				if m, ok := e.load(env.st, p, ft).(Term); ok {
+					out = append(out, modTarget{ks: e.mapDomKS(mt), ref: m}, modTarget{ks: e.mapLenKS(mt), ref: m})
+					for _, ks := range e.mapValKS(mt) {
+						out = append(out, modTarget{ks: ks, ref: m})
+					}
+				}
 			}
 			return out
 		}
